@@ -162,12 +162,16 @@ pub struct BitsStream<E: Endianness> {
     /// number of calls of each primitive (used by wrappers' obligations)
     pub n_calls: usize,
     pub flushes: usize,
+    /// what `flush` reports: the number of bits that were pending in the writer's
+    /// buffer (bits already written and already part of the stream, cf. the
+    /// contract of `BitWrite::flush`); any value is allowed by the contract
+    pub flush_ret: usize,
     _m: PhantomData<E>,
 }
 
 impl<E: VE> BitsStream<E> {
     pub fn new(bits: Bits, strict: bool, peek_width: usize) -> Self {
-        BitsStream { bits, pos: 0, strict, peek_width, last_peek: 0, n_calls: 0, flushes: 0, _m: PhantomData }
+        BitsStream { bits, pos: 0, strict, peek_width, last_peek: 0, n_calls: 0, flushes: 0, flush_ret: 0, _m: PhantomData }
     }
     pub fn empty() -> Self {
         Self::new(Bits::new(), true, 32)
@@ -290,7 +294,7 @@ impl<E: VE> BitWrite<E> for BitsStream<E> {
 
     fn flush(&mut self) -> Result<usize, ModelErr> {
         self.flushes += 1;
-        Ok(0)
+        Ok(self.flush_ret)
     }
 }
 
